@@ -183,6 +183,19 @@ def gen_case(rng, tier, est=None, seeded=None):
         if len(fits) >= 2:
             ops.insert(fits[1], {"op": "unrelated_fit", "what": "featchunk",
                                  "seed": rng.randint(0, 1000)})
+    if est in ("isv_array", "jfa_array") and rng.random() < 0.3:
+        # the machine trains its own UBM (ubm=None, ubm_kwargs=...): one configuration dict is
+        # shared by every estimator of the history (a seed sweep); the UBM's seeded k-means
+        # start depends on the presentation (known finding), so fits are presented identically
+        case["own_ubm"] = {"n_gaussians": 2, "max_fitting_steps": rng.randint(1, 3)}
+        for o in ops:
+            if o["op"] == "fit":
+                o.update(pres="identity", backend="np")
+                o.pop("perm", None), o.pop("sigma", None), o.pop("sched", None)
+            elif o["op"] == "sibling_fit":
+                o["backend"] = "np"
+                o.pop("sched", None)
+                o["rs"] = rng.randint(0, 1000)  # a sibling of the sweep has another seed
     case["chunks"] = chunks
     case["ops"] = ops
     # an "integer random_state" may be a Python int or any NumPy integer scalar
@@ -305,13 +318,18 @@ def _fit(case, o, rec, label):
                 ("variances", np.asarray(res.variances, float), "s2"),
                 ("weights", np.asarray(res.weights, float), "1")]
     if est in ("isv", "jfa", "isv_array", "jfa_array"):
-        ubm = _mk_ubm(case["ubm"])
+        if case.get("own_ubm"):
+            ukw = {"ubm": None,
+                   "ubm_kwargs": dict(case["own_ubm"]) if case.get("_pristine") else
+                   _KEEP.setdefault("ubm_kwargs", dict(case["own_ubm"]))}
+        else:
+            ukw = {"ubm": _mk_ubm(case["ubm"])}
         if est.startswith("isv"):
             m = ISVMachine(cfg["rU"], em_iterations=cfg["it"], relevance_factor=cfg["rf"],
-                           random_state=cfg["rs"], ubm=ubm)
+                           random_state=cfg["rs"], **ukw)
         else:
             m = JFAMachine(cfg["rU"], cfg["rV"], em_iterations=cfg["it"],
-                           relevance_factor=cfg["rf"], random_state=cfg["rs"], ubm=ubm)
+                           relevance_factor=cfg["rf"], random_state=cfg["rs"], **ukw)
         if est.endswith("_array"):
             X = data["X"]
             res = under(lambda: m.fit_using_array(
@@ -380,6 +398,7 @@ def run_case(case, replay=None):
     est = case["kind"]
     _KEEP.clear()
     rec.probe("same_estimator_object_refitted", bool(case.get("reuse_obj")))
+    rec.probe("own_ubm_from_shared_ubm_kwargs", bool(case.get("own_ubm")))
     if "X" in case:
         s = float(np.abs(A(case["X"])).max()) or 1.0
     else:
@@ -398,6 +417,17 @@ def run_case(case, replay=None):
         if not np.isfinite(cond) or cond > 1e6:
             return Result.skip("ill-conditioned", **rec.fields())
     results = []  # (op index, pres, backend, params, perm, sigma)
+    if case.get("own_ubm"):
+        # the reference: the target trained on its own, with containers nobody else has seen
+        i0 = next(i for i, o in enumerate(case["ops"]) if o["op"] == "fit")
+        try:
+            with np.errstate(all="ignore"):
+                results.append((i0, case["ops"][i0]["pres"], case["ops"][i0]["backend"],
+                                _fit(dict(case, _pristine=True), case["ops"][i0], rec, "pristine")))
+        except HarnessError:
+            raise
+        except Exception as e:
+            results.append((i0, case["ops"][i0]["pres"], case["ops"][i0]["backend"], e))
     events_between = 0
     interleaved = False
     for i, o in enumerate(case["ops"]):
@@ -428,6 +458,8 @@ def run_case(case, replay=None):
                                              n=L(A(st["n"]) * (2.0 - o["k"] if o["k"] < 2 else 1.0)))
                                         for st in case["stats"]]
                     sib["reuse_obj"] = False
+                    if "rs" in o:
+                        sib["cfg"] = dict(case["cfg"], rs=o["rs"])
                     try:
                         _fit(sib, dict(o, pres="identity"), rec, f"op{i}")
                     except HarnessError:
